@@ -185,16 +185,21 @@ type replayFile struct {
 	Expected string            `json:"expected"`
 	Property string            `json:"property,omitempty"`
 	Tags     map[string]string `json:"tags,omitempty"`
+	Set      string            `json:"set,omitempty"`
 }
 
 // WriteReplay stores a finding's replay vector as a file and returns its path.
 func (st *Staged) WriteReplay(dir string, prop string, f *sym.Finding) (string, error) {
+	return st.WriteReplaySet(dir, prop, "", f)
+}
+
+func (st *Staged) WriteReplaySet(dir string, prop string, set string, f *sym.Finding) (string, error) {
 	os.MkdirAll(dir, 0o755)
 	st.mu.Lock()
 	st.nextID++
 	id := st.nextID
 	st.mu.Unlock()
-	rf := replayFile{Harness: f.Harness, Params: f.Params, Vector: f.Replay, Expected: f.Kind + ":" + f.ID + "@" + f.Site, Property: prop, Tags: f.Tags}
+	rf := replayFile{Harness: f.Harness, Params: f.Params, Vector: f.Replay, Expected: f.Kind + ":" + f.ID + "@" + f.Site, Property: prop, Tags: f.Tags, Set: set}
 	b, _ := json.MarshalIndent(rf, "", " ")
 	p := filepath.Join(dir, fmt.Sprintf("%s-%s-%d.json", f.Harness, sanitize(f.ID), id))
 	return p, os.WriteFile(p, b, 0o644)
@@ -286,4 +291,53 @@ func RenderVector(v []sym.ReplayEntry) string {
 	}
 	flush()
 	return strings.TrimSpace(sb.String())
+}
+
+
+// CmdReplay re-runs a stored replay file natively and prints what happened.
+func CmdReplay(args []string) int {
+	if len(args) < 1 {
+		fmt.Fprintln(os.Stderr, "usage: symgo replay <file> [repo]")
+		return 2
+	}
+	repo := "/repo"
+	if len(args) > 1 {
+		repo = args[1]
+	}
+	b, err := os.ReadFile(args[0])
+	if err != nil {
+		fmt.Fprintln(os.Stderr, err)
+		return 2
+	}
+	var rf replayFile
+	if err := json.Unmarshal(b, &rf); err != nil {
+		fmt.Fprintln(os.Stderr, err)
+		return 2
+	}
+	verif := os.Getenv("VERIF_DIR")
+	if verif == "" {
+		verif = "/verif"
+	}
+	st, err := Stage(verif, repo)
+	if err != nil {
+		fmt.Fprintln(os.Stderr, err)
+		return 2
+	}
+	defer st.Cleanup()
+	set := rf.Set
+	if set == "" {
+		set = "redis"
+	}
+	abs, _ := filepath.Abs(args[0])
+	o, err := st.ReplayFile(set, abs, 30*time.Second, strings.HasPrefix(rf.Expected, "race:"))
+	if err != nil {
+		fmt.Fprintln(os.Stderr, err)
+		return 2
+	}
+	fmt.Printf("expected: %s\ninput: %s\noutcome: %s\n", rf.Expected, RenderVector(rf.Vector), o.Summary())
+	fmt.Print(o.Output)
+	if len(o.Failed) > 0 || o.Panic != "" || o.TimedOut || o.Race {
+		return 1
+	}
+	return 0
 }
